@@ -473,4 +473,42 @@ theorem basicRule_first_max (hits : List NetHit) (hne : hits ≠ []) :
       ⟨[], [], rfl, by intro y hy; cases hy⟩
     simpa [basicRule, basicFrom] using this
 
+/-! ### Case folding is a normal form -/
+
+theorem toNat_ofNat_small (n : Nat) (h : n < 0xd800) : (Char.ofNat n).toNat = n := by
+  simp [Char.ofNat, Char.toNat, Nat.isValidChar, h, Char.ofNatAux]
+
+theorem lowerChar_idem (c : Char) : lowerChar (lowerChar c) = lowerChar c := by
+  unfold lowerChar
+  by_cases h : 'A' ≤ c ∧ c ≤ 'Z'
+  · simp only [h, and_self, if_true]
+    have h1 : 65 ≤ c.toNat := by
+      have := h.1; simp [Char.le_def] at this; exact this
+    have h2 : c.toNat ≤ 90 := by
+      have := h.2; simp [Char.le_def] at this; exact this
+    have hv : (Char.ofNat (c.toNat + 32)).toNat = c.toNat + 32 := toNat_ofNat_small _ (by omega)
+    have hn : ¬ ('A' ≤ Char.ofNat (c.toNat + 32) ∧ Char.ofNat (c.toNat + 32) ≤ 'Z') := by
+      intro hh
+      have := hh.2
+      simp [Char.le_def] at this
+      have h3 := UInt32.le_iff_toNat_le.mp this
+      have h4 : (Char.ofNat (c.toNat + 32)).val.toNat = c.toNat + 32 := hv
+      rw [h4] at h3
+      simp at h3
+      omega
+    simp [hn]
+  · simp [h]
+
+theorem lower_idem (s : String) : lower (lower s) = lower s := by
+  unfold lower
+  have : (lowerChar ∘ lowerChar) = lowerChar := by
+    funext c; exact lowerChar_idem c
+  simp [List.map_map, this]
+
+theorem normName_idem (n : Host) : normName (normName n) = normName n := by
+  unfold normName
+  have : (lower ∘ lower) = lower := by
+    funext s; exact lower_idem s
+  simp [List.map_map, this]
+
 end Agd.Filter
